@@ -113,6 +113,17 @@ class Loc:
         df = self.df
         if isinstance(rows, Vec) and rows.dtype == 'b1':
             df = df.select_rows(interp, rows, node)
+        elif isinstance(rows, Vec):
+            # a list of labels: every row carrying the label, in the order of the requested labels (duplicates included)
+            labels = [e.d for e in df.index.els()]
+            pos = []
+            for e in rows.els():
+                hits = [i for i, lab in enumerate(labels) if lab == e.d]
+                if not hits:
+                    raise AbsRaise(ExcVal('KeyError', (X.show(e.d),)), node)
+                pos.extend(hits)
+            newcols = collections.OrderedDict((c, v.like([v.el(p) for p in pos])) for c, v in df.columns.items())
+            df = DF(newcols, df.index.like([df.index.el(p) for p in pos]))
         elif not (isinstance(rows, slice) and rows == slice(None)):
             raise AnalysisError('.loc row selector not modelled', node)
         if isinstance(cols, slice) and cols == slice(None):
@@ -179,9 +190,10 @@ class SeriesLoc:
         if isinstance(key, Vec) and key.dtype != 'b1':
             pos = []
             for e in key.els():
-                if e.d not in labels:
+                hits = [i for i, lab in enumerate(labels) if lab == e.d]      # every row carrying the label
+                if not hits:
                     raise AbsRaise(ExcVal('KeyError', (X.show(e.d),)), node)
-                pos.append(labels.index(e.d))
+                pos.extend(hits)
             return pos
         if isinstance(key, Vec):
             return [i for i, e in enumerate(key.els()) if bool_of_el(e.d) == X.TRUE]
